@@ -157,20 +157,33 @@ def h_system(pbc):
     return fn
 
 
-def h_displacement_boxes():
-    """the chosen reference system's box and pbc are used"""
+def h_displacement_boxes(variant):
+    """the chosen reference system's box AND pbc are used (the two systems differ in both)"""
     def fn():
         import atomman as am
-        lx, ly, lz, xy, xz, yz = lammps_cell(); V = expect_vects(lx, ly, lz, xy, xz, yz)
-        b0 = am.Box(lx=lx, ly=ly, lz=lz, xy=xy, xz=xz, yz=yz)
-        L2 = [var(n, 1, 100) for n in ('mx', 'my', 'mz')]
-        b1 = am.Box(lx=L2[0], ly=L2[1], lz=L2[2])
+        if variant == 'orthogonal':
+            L0 = [var(n, 1, 100) for n in ('lx', 'ly', 'lz')]; L1 = [var(n, 1, 100) for n in ('mx', 'my', 'mz')]
+            b0 = am.Box(lx=L0[0], ly=L0[1], lz=L0[2]); b1 = am.Box(lx=L1[0], ly=L1[1], lz=L1[2])
+            pbc0, pbc1 = (True, False, False), (False, True, False)
+        else:
+            b0 = am.Box(lx=3.0, ly=2.5, lz=2.0, xy=0.7, xz=-0.4, yz=0.3); b1 = am.Box(lx=2.2, ly=3.1, lz=2.6, xy=-0.5)
+            pbc0, pbc1 = (True, False, True), (False, True, True)
         P = pts(1, 'p'); Q = pts(1, 'q')
-        s0 = am.System(atoms=am.Atoms(pos=sa(P)), box=b0, pbc=(True, False, True))
-        s1 = am.System(atoms=am.Atoms(pos=sa(Q)), box=b1, pbc=(False, True, True))
+        s0 = am.System(atoms=am.Atoms(pos=sa(P)), box=b0, pbc=pbc0)
+        s1 = am.System(atoms=am.Atoms(pos=sa(Q)), box=b1, pbc=pbc1)
         ob = []
-        ob.append(("'final' uses system_1's box and pbc", alleq(am.displacement(s0, s1, 'final')[0], am.dvect(sa(P[0]), sa(Q[0]), b1, (False, True, True))[0])))
-        ob.append(("'initial' uses system_0's box and pbc", alleq(am.displacement(s0, s1, 'initial')[0], am.dvect(sa(P[0]), sa(Q[0]), b0, (True, False, True))[0])))
+        for ref, (bx, pb) in (('final', (b1, pbc1)), ('initial', (b0, pbc0))):
+            d = am.displacement(s0, s1, ref)[0]
+            V = np.asarray(bx.vects, dtype=object)
+            direct = [Q[0][j] - P[0][j] for j in range(3)]
+            C = cands(pb)
+            d2 = sum(d[j] * d[j] for j in range(3))
+            # independent statement: a lattice image along the periodic directions of the REFERENCE system only, and the shortest such
+            anyc = bor(*[band(*[eq(d[j], direct[j] + c[0] * V[0][j] + c[1] * V[1][j] + c[2] * V[2][j], 1e3) for j in range(3)]) for c in C])
+            ob.append((f'{ref!r}: displacement is an image under the reference system\'s box and periodic directions', anyc))
+            for c in C:
+                cand = [direct[j] + c[0] * V[0][j] + c[1] * V[1][j] + c[2] * V[2][j] for j in range(3)]
+                ob.append((f'{ref!r}: not longer than the image {c} of the reference cell', le(d2, sum(x * x for x in cand), 1e6)))
         ob.append(("default is 'final'", alleq(am.displacement(s0, s1)[0], am.displacement(s0, s1, 'final')[0])))
         return ob
     return fn
@@ -227,8 +240,9 @@ def cases(tier, seed=0):
                        descr='System.dvect/dmag index-or-position dispatch; displacement() atom by atom'))
     cs.append(Case('radius_lemma', h_radius_lemma(), budget_s=170, timeout_ms=30000,
                    descr='finite search radius for orthogonal cells with both points inside (pure arithmetic lemma, 98 shifts + all radii per axis)'))
-    cs.append(Case('displacement_boxes', h_displacement_boxes(), bind=BIND, kernels=KER, maxcases=32, budget_s=120, timeout_ms=30000,
-                   descr='displacement uses the chosen reference system\'s box and pbc'))
+    for v in ('orthogonal', 'tilted'):
+        cs.append(Case(f'displacement_boxes_{v}', h_displacement_boxes(v), bind=BIND, kernels=KER, maxcases=32, budget_s=120, timeout_ms=30000,
+                       descr=f'displacement uses the chosen reference system\'s box and pbc ({v} cells, systems differ in both)'))
     if tier == 'thorough':
         for pbc in PBCS:
             npb = sum(pbc); nparts = {3: 27, 2: 9, 1: 1, 0: 1}[npb]
